@@ -374,6 +374,144 @@ pub fn run_case<C: Serialize>(id: &str, part: &str, case: &C, check: fn(&C, &mut
     std::process::abort();
 }
 
+/// (property, part, case as JSON) of a raw fuzz input, for turning libFuzzer artifacts into replay files
+pub fn decode_to_json(name: &str, data: &[u8]) -> Option<(&'static str, &'static str, serde_json::Value)> {
+    Some(match name {
+        "hist_c05" => ("C05", "history", serde_json::to_value(history(data)).ok()?),
+        "hist_c07" => ("C07", "twin", serde_json::to_value(history(data)).ok()?),
+        "obj_c06" => ("C06", "object", serde_json::to_value(obj_case(data)).ok()?),
+        "oneshot_c10" => ("C10", "oneshot_vs_streaming", serde_json::to_value(oneshot(data)).ok()?),
+        "prims_c03" => ("C03", "xform", serde_json::to_value(xform_case(data)).ok()?),
+        _ => return None,
+    })
+}
+
+/// fuzz targets that deepen a property in the thorough tier: (target, runs per instance)
+pub fn targets_for(id: &str) -> Vec<(&'static str, u64)> {
+    match id {
+        "C03" => vec![("prims_c03", 120_000)],
+        "C05" => vec![("hist_c05", 20_000)],
+        "C06" => vec![("obj_c06", 250_000)],
+        "C07" => vec![("hist_c07", 20_000)],
+        "C10" => vec![("oneshot_c10", 20_000)],
+        _ => vec![],
+    }
+}
+
+/// Builds (cargo-fuzz, nightly, ASan) and runs a libFuzzer campaign; results go into the run.
+pub fn campaign(run: &mut crate::runner::Run, target: &str, runs: u64) {
+    use std::process::Command;
+    if run.failed() {
+        return;
+    }
+    let t0 = std::time::Instant::now();
+    let exe = match std::env::current_exe() {
+        Ok(e) => e,
+        Err(_) => return,
+    };
+    // <harness>/target/release/rsv
+    let Some(harness) = exe.parent().and_then(|p| p.parent()).and_then(|p| p.parent()) else { return };
+    let fuzz_dir = harness.join("fuzz");
+    let key = format!("fuzz_{target}");
+    let build = Command::new("cargo")
+        .args(["+nightly", "fuzz", "build", "--fuzz-dir"])
+        .arg(&fuzz_dir)
+        .arg(target)
+        .env("CARGO_NET_OFFLINE", "true")
+        .current_dir(harness)
+        .output();
+    let bin = fuzz_dir.join("target/x86_64-unknown-linux-gnu/release").join(target);
+    match build {
+        Ok(o) if o.status.success() && bin.exists() => {}
+        Ok(o) => {
+            let err = String::from_utf8_lossy(&o.stderr);
+            let tail: String = err.chars().rev().take(300).collect::<String>().chars().rev().collect();
+            run.extra.insert(key, json!({"status": "unavailable: cargo fuzz build failed", "stderr_tail": tail}));
+            return;
+        }
+        Err(e) => {
+            run.extra.insert(key, json!({"status": format!("unavailable: {e}")}));
+            return;
+        }
+    }
+    let instances = (run.threads / 2).clamp(1, 8);
+    let runs = ((runs as f64 * run.scale).ceil() as u64).max(100);
+    let base = harness.join("target").join("fuzz-run").join(format!("{target}-{}", run.seed));
+    let _ = std::fs::remove_dir_all(&base);
+    let mut children = Vec::new();
+    for inst in 0..instances {
+        let dir = base.join(format!("i{inst}"));
+        let corpus = dir.join("corpus");
+        let _ = std::fs::create_dir_all(&corpus);
+        // seed corpus: pseudo-random inputs (every input decodes to a valid case)
+        let mut rng = crate::gen::Xs::new(run.seed ^ hash_of(&(target, inst)));
+        for f in 0..48 {
+            let mut b = vec![0u8; 256 + rng.below(1800)];
+            rng.fill(&mut b);
+            let _ = std::fs::write(corpus.join(format!("seed{f}")), b);
+        }
+        let seed = ((run.seed ^ hash_of(&(target, inst))) as u32).max(1);
+        let child = Command::new(&bin)
+            .arg(&corpus)
+            .arg(format!("-runs={runs}"))
+            .arg(format!("-seed={seed}"))
+            .args(["-len_control=0", "-max_len=2048", "-timeout=120", "-print_final_stats=1", "-rss_limit_mb=4096"])
+            .arg(format!("-artifact_prefix={}/", dir.display()))
+            .env("RSV_VERIF_DIR", verif_dir())
+            .stdout(std::process::Stdio::null())
+            .stderr(std::process::Stdio::piped())
+            .spawn();
+        if let Ok(c) = child {
+            children.push((inst, dir, c));
+        }
+    }
+    let mut execs = 0u64;
+    let mut notes = Vec::new();
+    for (inst, dir, c) in children {
+        let Ok(out) = c.wait_with_output() else { continue };
+        let err = String::from_utf8_lossy(&out.stderr).to_string();
+        for l in err.lines() {
+            if let Some(v) = l.strip_prefix("stat::number_of_executed_units:") {
+                execs += v.trim().parse::<u64>().unwrap_or(0);
+            }
+        }
+        if out.status.success() {
+            continue;
+        }
+        // a violation found by the in-target oracle has already written its replay file
+        if let Some(l) = err.lines().find(|l| l.starts_with("VIOLATION property=")) {
+            let path = l.split("replay=").nth(1).unwrap_or("").trim().to_string();
+            let msg = err.lines().find(|l| l.trim_start().starts_with("part=")).unwrap_or("").trim().to_string();
+            run.failures.push(crate::runner::Failure { part: format!("libFuzzer:{target}"), case: serde_json::Value::Null, message: msg, replay_path: Some(path) });
+            continue;
+        }
+        if err.contains("libFuzzer: timeout") || err.contains("libFuzzer: out-of-memory") {
+            notes.push(format!("instance {inst}: libFuzzer timeout/oom (inconclusive)"));
+            run.inconclusive.push(format!("libFuzzer:{target}: instance {inst} hit the per-input time or memory limit"));
+            continue;
+        }
+        // sanitizer report or abort outside the oracle: the artifact is the reproducer
+        let artifact = std::fs::read_dir(&dir).ok().and_then(|rd| rd.filter_map(|e| e.ok()).map(|e| e.path()).find(|p| p.file_name().map(|n| n.to_string_lossy().starts_with("crash-")).unwrap_or(false)));
+        let summary = err.lines().find(|l| l.contains("ERROR: AddressSanitizer") || l.contains("SUMMARY:")).unwrap_or("crash").to_string();
+        if let Some(a) = artifact {
+            if let Ok(bytes) = std::fs::read(&a) {
+                if let Some((_, part, case)) = decode_to_json(target, &bytes) {
+                    run.record_failure(part, case, format!("libFuzzer/ASan: {summary}"));
+                    continue;
+                }
+            }
+        }
+        run.inconclusive.push(format!("libFuzzer:{target}: instance {inst} exited abnormally without artifact: {summary}"));
+    }
+    run.stats.evaluations += execs;
+    *run.stats.counters.entry(format!("libFuzzer/{target}/executions")).or_insert(0) += execs;
+    run.extra.insert(
+        key,
+        json!({"status": "ran", "instances": instances, "runs_per_instance": runs, "executions": execs, "sanitizer": "address", "wall_s": t0.elapsed().as_secs_f64(), "notes": notes}),
+    );
+    let _ = std::fs::remove_dir_all(&base);
+}
+
 pub fn target(name: &str, data: &[u8]) {
     if data.len() < 4 {
         return;
